@@ -3,11 +3,11 @@
    ascii and string stay extracted inductive datatypes.  No Extract Constant of our own. *)
 Require Extraction.
 Require ExtrOcamlBasic.
-From GG Require Registry Sched Exec ExecSpec Coerce Text Json Schema Introspect Sdl.
+From GG Require Registry Sched Listing Exec ExecSpec Coerce Text Json Schema Introspect Sdl.
 Extraction Language OCaml.
 Extraction "model.ml"
   Registry.run Registry.a_run Registry.trace Registry.trace_okb
-  Sched.exec Sched.all_done Sched.strace Sched.once_okb Sched.visible_okb Sched.late_okb
+  Sched.exec Sched.all_done Sched.strace Sched.once_okb Sched.visible_okb Sched.late_okb Listing.listed_okb
   Exec.exec_op Exec.printed_args Exec.doc_rejects Exec.get_field_def ExecSpec.sem_op ExecSpec.nodup_keys ExecSpec.wf_doc
   Coerce.coerce_input Coerce.leaf_out Coerce.conforms Coerce.denotes Coerce.has_shape Coerce.out_faithful
   Text.parse_value Text.write_value Text.parse_int64 Json.json_parse Json.to_json
